@@ -1678,11 +1678,14 @@ class Kconfig(object):
                     if not choice._was_set:
                         choice.unset_value()
 
-            for sym in symbols_with_default_values:
-                sym.resolve_defaults()
-
+            # Choices first: a choice resolves the symbols it depends on itself, whereas a symbol that
+            # depends on a choice symbol would otherwise be compared (and possibly found invisible) while the
+            # choice still has its Kconfig default selection instead of the one stored in sdkconfig.
             for choice in choices_with_default_values:
                 choice.resolve_defaults()
+
+            for sym in symbols_with_default_values:
+                sym.resolve_defaults()
 
             # The value of a promptless symbol can depend on symbols assigned later in the
             # file (or on choice symbols, which are applied last), so compare only now.
